@@ -3,7 +3,7 @@ def jobs(tier, ctx):
     out = []
     for dest in ((1, 3) if tier == 'quick' else (1, 2, 3)):
         out.append(dict(name='move_object.dest%d' % dest, srcs=['@harness/C08/move.c', 'src/simulate.c'], stubs=BASE, defs=['DEST=%d' % dest, 'VMW_HAVE_SIMULATE=1'], unwind=6,
-                        nobody_ok=['*'], targets=['move_object'], timeout=400, mem_gb=10, opt_witness=['plain_move', 'move_with_init_callbacks', 'move_raised_error'],
+                        nobody_ok=['*'], targets=['move_object'], timeout=700, mem_gb=8, opt_witness=['plain_move', 'move_with_init_callbacks', 'move_raised_error'],
                         desc='move_object(item 0, %s) from any forest over 3 objects with any command/destructed flags; each init() callback replaces the graph by another arbitrary forest and may raise an error: forest invariant after, at every callback, and on the error path' % ('object %d' % dest if dest < 3 else 'no environment'),
                         inputs='parent pointers, flags, havoc forests and destruct flags for the first 2 callbacks, error choices',
                         assumptions=['callbacks = havoc to any forest state (later callbacks leave the graph alone); command sentences empty; 3 objects']))
